@@ -128,6 +128,17 @@ def circular_convolve(a, b, s):
     return out.view(A.SymArray)
 
 
+def _default_axes(x, axes):
+    """axes=None, or all axes in order (what scipy does by default): accepted; anything else is not modelled"""
+    if axes is None:
+        return True
+    try:
+        nd = len(getattr(x, "shape", ()))
+        return [a % nd for a in axes] == list(range(nd))
+    except Exception:
+        return False
+
+
 class FFTStub:
     def __init__(self, mode="opaque"):
         self.mode = mode
@@ -169,7 +180,7 @@ class FFTStub:
 
     # -- transforms --------------------------------------------------------------------------
     def fftn(self, x, s=None, axes=None, **kw):
-        if axes is not None:
+        if not _default_axes(x, axes):
             raise Unsupported("fftn with axes")
         xin = self._pad_to(x, s)
         if self.mode == "opaque":
@@ -183,7 +194,7 @@ class FFTStub:
         return out
 
     def ifftn(self, x, s=None, axes=None, **kw):
-        if axes is not None:
+        if not _default_axes(x, axes):
             raise Unsupported("ifftn with axes")
         xin = self._pad_to(x, s)
         if self.mode == "opaque":
@@ -198,7 +209,7 @@ class FFTStub:
         return out
 
     def rfftn(self, x, s=None, axes=None, **kw):
-        if axes is not None:
+        if not _default_axes(x, axes):
             raise Unsupported("rfftn with axes")
         if self.mode == "exact" and s is not None:
             # the only use of rfftn(x, s) in acryo is FFT convolution: keep it lazy (convolution theorem)
@@ -219,7 +230,7 @@ class FFTStub:
         return out
 
     def irfftn(self, y, s=None, axes=None, **kw):
-        if axes is not None:
+        if not _default_axes(y, axes):
             raise Unsupported("irfftn with axes")
         if isinstance(y, LazyProd):
             if s is None or tuple(int(v) for v in s) != y.s:
